@@ -44,6 +44,8 @@ def spec : Handler := fun j => do
   let t' := tweak [] (prep specCfg t)
   let ps := positionedNodes t'
   pure (Json.mkObj [("nodes", Json.arr (ps.map fun p => Json.arr #[strJ p.1, Json.num (p.2 : Nat)]).toArray),
+    ("starts", Json.arr ((nodeStartsSpec [] [] t').map fun p => Json.arr #[strJ p.1, Json.num (p.2 : Nat)]).toArray),
+    ("last_desc_mono", Json.bool (lastDescMono [] [] t')),
     ("wf", Json.bool (treeOk t')),
     ("wf_pipeline", Json.bool (wfStages6 (prep implCfg t) && wfTweak (prep implCfg t) &&
       treeOk (tweak [] (prep implCfg t))))])
